@@ -332,3 +332,110 @@ Proof.
     cbn [obind rbind out_res]; try (inversion B; reflexivity).
   injection B as B; subst xs. destruct a; reflexivity.
 Qed.
+
+(* ------------------------------------------------------------------ direct_slice_data, parse.py:116-175 *)
+(* the source takes the axis as a str, the model as `axis` *)
+Definition axis_text (a : axis) : text :=
+  match a with
+  | Obs => [111; 98; 115; 101; 114; 118; 97; 116; 105; 111; 110]
+  | Samp => [115; 97; 109; 112; 108; 101]
+  end.
+
+Lemma teqb_same a : teqb a a = true.
+Proof. unfold teqb. induction a as [|x a IH]; cbn; [reflexivity|]. rewrite Z.eqb_refl, IH. reflexivity. Qed.
+
+Lemma need_key_step {B} s K (f : text -> outcome B) (g : text -> result B) :
+  (forall kv, out_res (f kv) = Some (g kv)) ->
+  out_res (obind (direct_parse_key_gen s K) (fun v => if teqb v [] then Exn ValueError else f v))
+  = Some (rbind (need_key s K) g).
+Proof.
+  intro H. unfold need_key. pose proof (out_res_inv _ _ (direct_parse_key_bridge s K)) as B0.
+  destruct (direct_parse_key_gen s K) as [v|[]|]; try contradiction; rewrite B0; cbn [obind rbind out_res]; try reflexivity.
+  destruct v as [|c t]; [reflexivity|]. change (teqb (c :: t) []) with false. cbn iota. apply H.
+Qed.
+
+Lemma split_char_ne c s : split_char c s <> [].
+Proof.
+  destruct s as [|x t]; cbn [split_char]; [discriminate|]. destruct (x =? c); [discriminate|].
+  unfold cons_hd. destruct (split_char c t); discriminate.
+Qed.
+
+Lemma seq_at_m1 {A} (l : list A) d : l <> [] -> seq_at l (-1) = Val (last l d).
+Proof. intro H. rewrite (app_removelast_last d H) at 1. apply seq_at_last. Qed.
+
+Lemma str_remove2 x : str_remove 93 (str_remove 91 x) = filter (fun c => negb ((c =? LBRACK) || (c =? RBRACK))) x.
+Proof.
+  unfold str_remove, LBRACK, RBRACK. induction x as [|c t IH]; cbn [filter]; [reflexivity|].
+  destruct (c =? 91); cbn [negb orb filter]; [exact IH|]. destruct (c =? 93); cbn [negb]; rewrite IH; reflexivity.
+Qed.
+
+Lemma str_ints_cases l : (exists v, str_ints l = Val v) \/ str_ints l = Exn ValueError.
+Proof.
+  induction l as [|x t IH]; cbn [str_ints]; [left; eexists; reflexivity|].
+  destruct (py_int x); [|right; reflexivity]. destruct IH as [[v ->]| ->]; cbn [obind]; [left; eexists; reflexivity|right; reflexivity].
+Qed.
+
+Lemma str_ints_two {B} l (f : Z -> Z -> outcome B) (g : Z -> Z -> result B) :
+  (forall r c, out_res (f r c) = Some (g r c)) ->
+  out_res (obind (str_ints l) (fun v => match v with [r; c] => f r c | _ => Exn ValueError end))
+  = Some (match map py_int l with [Some r; Some c] => g r c | _ => RErr E_VALUE end).
+Proof.
+  intro H. destruct l as [|a [|b [|c l']]]; cbn [str_ints map].
+  - reflexivity.
+  - destruct (py_int a); reflexivity.
+  - destruct (py_int a); [|reflexivity]. destruct (py_int b); cbn [obind]; [apply H|reflexivity].
+  - destruct (py_int a); [|reflexivity]. destruct (py_int b); cbn [obind]; [|reflexivity].
+    destruct (py_int c); cbn [obind]; [|reflexivity].
+    destruct (str_ints_cases l') as [[v ->]| ->]; reflexivity.
+Qed.
+
+Lemma data_inner_eq df : str_slice df (str_find [91] df + 1) (str_len df - 1) = data_inner df.
+Proof.
+  unfold data_inner, str_find, LBRACK.
+  set (start := match find_sub [91] df with Some i => S i | None => 0%nat end).
+  replace (match find_sub [91] df with Some i => Z.of_nat i | None => -1 end + 1) with (Z.of_nat start)
+    by (unfold start; destruct (find_sub [91] df); lia).
+  unfold str_slice, norm_idx, str_len. set (n := length df).
+  destruct (Z.ltb_spec (Z.of_nat start) 0); [lia|].
+  destruct (Nat.le_gt_cases start n) as [Hs|Hs].
+  - rewrite (Z.min_l (Z.of_nat start)) by lia. rewrite Nat2Z.id.
+    destruct (Z.ltb_spec (Z.of_nat n - 1) 0).
+    + f_equal. lia.
+    + rewrite Z.min_l by lia. f_equal. lia.
+  - rewrite (Z.min_r (Z.of_nat start)) by lia. rewrite Nat2Z.id. rewrite !skipn_all2 by (fold n; lia). rewrite !firstn_nil. reflexivity.
+Qed.
+
+Lemma print_Z_nat n : print_Z (Z.of_nat n) = print_nat n.
+Proof. unfold print_Z. destruct (Z.ltb_spec (Z.of_nat n) 0); [lia|]. rewrite Nat2Z.id. reflexivity. Qed.
+
+Lemma out_res_obind {A B} (o : outcome A) (r : result A) (f : A -> outcome B) (g : A -> result B) :
+  out_res o = Some r -> (forall a, out_res (f a) = Some (g a)) -> out_res (obind o f) = Some (rbind r g).
+Proof.
+  intros H Hf. apply out_res_inv in H. destruct o as [a|[]|]; try contradiction; subst r; cbn [obind rbind out_res]; auto.
+Qed.
+
+Theorem direct_slice_data_bridge : forall s keep a,
+  out_res (direct_slice_data_gen s keep (axis_text a)) = Some (direct_slice_data s keep a).
+Proof.
+  intros s keep a. unfold direct_slice_data_gen, direct_slice_data, K_SHAPE, K_DATA, K_MATRIX_TYPE.
+  assert (IN : str_in (axis_text a) [[111; 98; 115; 101; 114; 118; 97; 116; 105; 111; 110]; [115; 97; 109; 112; 108; 101]] = true)
+    by (destruct a; reflexivity).
+  rewrite IN. cbn [negb]. cbv zeta.
+  apply need_key_step. intro shape_kv. cbv beta. apply need_key_step. intro data_fields. cbv beta. apply need_key_step. intros _. cbv beta.
+  rewrite (seq_at_m1 (split_char 58 shape_kv) ([] : text)) by apply split_char_ne. cbn [obind]. rewrite str_remove2. unfold COLON, COMMA, last_of.
+  apply str_ints_two. intros n_rows n_cols. rewrite data_inner_eq.
+  destruct keep as [|k ks]; [reflexivity|].
+  unfold list_min. cbn [obind]. destruct (Z.ltb_spec (Z.of_nat (fold_right Nat.min k ks)) 0) as [H|_]; [lia|].
+  set (keep := k :: ks).
+  unfold list_max, nmax. change (match keep with [] => Exn ValueError | _ :: _ => Val (fold_right Nat.max 0%nat keep) end)
+    with (@Val nat (fold_right Nat.max 0%nat keep)).
+  destruct a; unfold axis_text.
+  - change (teqb [111; 98; 115; 101; 114; 118; 97; 116; 105; 111; 110] [111; 98; 115; 101; 114; 118; 97; 116; 105; 111; 110]) with true. cbn iota. cbn [obind]. rewrite Z.geb_leb.
+    destruct (n_rows <=? Z.of_nat (fold_right Nat.max 0%nat keep)); [reflexivity|].
+    unfold str_len. rewrite print_Z_nat.
+    apply (out_res_obind _ _ _ _ (slice_obs_bridge _ _)). intro new_data. reflexivity.
+  - change (teqb [115; 97; 109; 112; 108; 101] [111; 98; 115; 101; 114; 118; 97; 116; 105; 111; 110]) with false. change (teqb [115; 97; 109; 112; 108; 101] [115; 97; 109; 112; 108; 101]) with true. cbn iota. cbn [obind]. rewrite Z.geb_leb.
+    destruct (n_cols <=? Z.of_nat (fold_right Nat.max 0%nat keep)); [reflexivity|].
+    unfold str_len. rewrite print_Z_nat.
+    apply (out_res_obind _ _ _ _ (slice_samp_bridge _ _)). intro new_data. reflexivity.
+Qed.
